@@ -78,7 +78,7 @@ Schema == [c \in Class |->
      [] c = "Nasa" -> << Slot("model", "opt", <<"StatMech">>, 0), Slot("cat_site", "opt", <<"CatSite">>, 0),
                          Slot("misc_models", "list", Misc, 0) >>
      [] c = "Shomate" -> << Slot("model", "opt", <<"StatMech">>, 0), Slot("misc_models", "list", Misc, 0) >>
-     [] c = "Nasa9" -> << Slot("nasas", "list", <<"SingleNasa9">>, 1), Slot("model", "opt", <<"StatMech">>, 0),
+     [] c = "Nasa9" -> << Slot("nasas", "list", <<"SingleNasa9">>, 2), Slot("model", "opt", <<"StatMech">>, 0),
                           Slot("misc_models", "list", Misc, 0) >>
      [] c = "Reference" -> << Slot("model", "one", <<"StatMech">>, 1), Slot("misc_models", "list", Misc, 0) >>
      [] c = "References" -> << Slot("references", "list", <<"Reference">>, 0) >>
